@@ -52,6 +52,14 @@ CHECKS = {
    text="A catalogue of ~6900 abstract GPOS programs over an 8-glyph universe (SinglePos 1/2 with all 16 static value formats x 8 lookup-flag settings and device/variation formats; PairPos 1/2 with all 16x16 value-format pairs; CursivePos; MarkBase/MarkLig/MarkMark with 1-2 classes, null anchors, anchor formats 1-3; Context/ChainContext with nested records; multi-lookup combinations) is encoded by an independent encoder under every encoding with <= 1 (thorough 2) non-default choices (Coverage 1/2, ClassDef 1/2, Extension) and run through gpos::apply_features, Font::shape and GlyphLayout::glyph_positions (both directions, two hmtx variants) on every glyph string up to length 3 (context/combination programs 4; thorough 4-5) over {a,b,L,m1,m2} x ligature-component assignments x 6 variation tuples; Info.kerning/placement and the absolute pen positions are compared with a reference positioner written from the OpenType GPOS chapter. kern tables (format 0 and 2, coverage bits, several subtables) x all strings through apply_fallback and Font::shape against a byte-level reference reader.",
    note="Trusted: otmodel::gposenc encoders and reference positioner; documented drawing convention for right-to-left; where the specification is silent (kern 'minimum', unattached glyphs between cursive partners) the set of legitimate outcomes is accepted (listed as assumptions in the evidence); known deviations are attributed only when allsorts' output equals the reference run with exactly that deviation switched on.",
    technique="exhaustive choice-tree enumeration of positioning programs x encodings x strings x directions against an independent reference positioner"),
+ "C04": dict(engine="mcx-choice-tree", cat="model_checking",
+   text="18 000 (thorough 25 000) abstract GSUB programs over an 8-glyph universe - every lookup type 1-8 and subtable format, two-subtable lookups, alternates, 27 lookup-flag settings (none, the 7 single settings incl. both mark filtering sets and mark attachment types, 19 consistent pairs), contextual/chaining templates (formats 1/2/3, backtrack/lookahead, class 0 first glyph, first rule / first subtable wins) x 16 nested lookups at every sequence index, two-record combinations, nesting depth 1-5 and mutual recursion, ordered pairs of 16 (24) lookups x 13 feature configurations (both feature-list and lookup-list orders, rvrn), FeatureVariations x tuples at and around every range edge - are encoded by an independent encoder (Coverage 1/2, ClassDef 1/2, Extension as deviation choices) and applied to every glyph string up to length 4 (thorough 5; pairs 3/4) over {a,b,L,m1,m2} through gsub::apply (Features::Custom and Features::Mask) and Font::shape; glyph ids, unicodes, ligature/multiple-substitution flags and liga_component_pos are compared with a list-rewriting reference interpreter written from the OpenType GSUB chapter.",
+   note="Trusted: otmodel::gsubenc encoder and reference interpreter; where the specification is silent the set {spec-literal, HarfBuzz} is accepted (listed as assumptions in the evidence: bookkeeping after nested length changes, empty Sequence tables, tuple None); tags fina/vert/vrt2/frac excluded; multi-script tables, required features and nested reverse-chaining lookups are not enumerated.",
+   technique="exhaustive choice-tree enumeration of substitution programs x encodings x strings against an independent list-rewriting reference interpreter"),
+ "C12": dict(engine="mcx-choice-tree", cat="model_checking",
+   text="Seven families of synthetic TrueType variable fonts assembled by independent encoders (fvar, avar, gvar with shared/embedded peaks, intermediate regions, shared/private packed point numbers, every packed-delta run form, HVAR direct / DeltaSetIndexMap formats 0 and 1, MVAR with all value tags, ItemVariationStore): all 3-point and half (thorough all) of the 4-point coordinate sequences over {0,10,50,100} plus designed shapes with coincident neighbours x every referenced-point subset x phantom selections x delta patterns (IUP); all sets of 1-3 regions from a 10-region one-axis menu and 1-2 (3) regions from 35 two-axis regions x encoding profiles x axis kinds x avar; a 300-point glyph x packed-delta modes x run caps x point-number forms; 8 HVAR kinds x 4 MVAR kinds x phantom deltas x numberOfHMetrics; invalid regions; advances near the int16 edge. Each font is instanced at every region start/peak/end +-1 F2Dot14 unit, midpoints, thirds, 0, +-1 and beyond the axis range (thorough: all 32769 normalised values for 198 one-axis fonts); glyph points, composite offsets, advances, side bearings and MVAR metrics read back by an independent reader are compared with an exact rational evaluator (region scalars, sum of scalar x delta, IUP per contour, phantom points) to one font unit, exactly at the default, and the output must contain no variation tables and load as a static font.",
+   note="Trusted: otmodel::varenc encoders (checked against the specification's packed point/delta examples) and rational evaluator; when HVAR disagrees with phantom-point deltas either source is accepted; a font with advances above 32767 may be refused; CFF2 blend is C18's business; composites with transforms, vertical metrics and bounding boxes are not checked.",
+   technique="exhaustive enumeration of variable-font models x encodings x coordinates against an exact rational evaluation of the OpenType variation algorithm"),
 }
 
 NOT_YET = {
